@@ -72,6 +72,9 @@ def models(rng, quick):
         out.append(("hem", HEMModel(HEMParameters(u(0.05, 0.4), u(0.2, 0.8), u(3, 30), u(3, 30), u(0.5, 8)))))
         out.append(("merton", MertonModel(MertonParameters(u(0.05, 0.4), u(0.01, 0.3), u(0.1, 0.4), u(0.5, 8)))))
         out.append(("vg", VarianceGammaModel(VGParameters(u(0.1, 0.4), u(0.1, 0.6), u(-0.3, 0.2)))))
+        # jump-diffusions without diffusion: the compensating drift is still there
+        out.append(("hem_nosigma", HEMModel(HEMParameters(0.0, u(0.2, 0.8), u(3, 30), u(3, 30), u(0.5, 8)))))
+        out.append(("merton_nosigma", MertonModel(MertonParameters(0.0, u(0.05, 0.3), u(0.1, 0.4), u(0.5, 8)))))
         for tag, y in (("cgmy_neg", u(-1.6, -0.2)), ("cgmy_0", 0.0), ("cgmy_01", u(0.1, 0.9)), ("cgmy_1", 1.0),
                        ("cgmy_12", u(1.1, 1.8))):
             out.append((tag, CGMYModel(CGMYParameters(u(0.05, 2.0), u(2.5, 12.0), u(2.5, 12.0), y))))
@@ -99,13 +102,19 @@ def one(tag, m, rng):
     def dens(y):
         return float(nu(y))
 
+    def integrand(z, y):
+        d = dens(y)
+        if d == 0.0:          # far in the tails the density underflows before e^{zy} overflows
+            return 0j
+        return kernel(z, y, h(y)) * d
+
     hdr = {"kind": "exponent:" + tag, "rep": rep.name}
     try:
         rows = []
         xs = [0.5, 2.5, -1.5, 7.0, -1j, -0.5j, 1 - 0.5j, rng.uniform(-4, 4), complex(rng.uniform(-3, 3), -rng.uniform(0.1, 0.9))]
         for k, x in enumerate(xs):
             z = 1j * x
-            ref = 1j * x * a - 0.5 * (x * s) ** 2 + integral(lambda y: kernel(z, y, h(y)) * dens(y))
+            ref = 1j * x * a - 0.5 * (x * s) ** 2 + integral(lambda y: integrand(z, y))
             v = complex(m.levy_exponent(x))
             u = 1e-7 * max(1.0, abs(ref))
             rows.append([k, quantise(v.real, u), quantise(v.imag, u), quantise(ref.real, u), quantise(ref.imag, u)])
